@@ -54,6 +54,50 @@ def run(ctx):
         rotate(ctx, rng, xr)
     for i, rng in ctx.cases("rotate_irregular", ctx.n(300, 8000)):
         rotate_irregular(ctx, rng, xr)
+    for i, rng in ctx.cases("interp_spec_helper", ctx.n(600, 15000)):
+        interp_helper(ctx, rng, utils)
+
+
+def interp_helper(ctx, rng, utils):
+    """The array-level regridding helper the file readers use (`core.utils.interp_spec`), on its deterministic branches:
+    same grid -> the same values; directions unchanged -> linear in frequency per direction, stored values on the
+    nodes, zero outside the source range; 1-D spectra (indir=None). Grids from one frequency upward."""
+    rec = ctx.rec
+    nf = int(rng.choice([1, 1, 2, 3, 7, 20]))
+    nd = int(rng.choice([1, 2, 8, 24]))
+    f = np.sort(rng.uniform(0.03, 0.6, nf)) if rng.random() < 0.5 else 0.04 * 1.1 ** np.arange(nf)
+    th = np.arange(nd) * (360.0 / nd)
+    oned = rng.random() < 0.25
+    E = rng.random((nf,)) if oned else rng.random((nf, nd)) * (rng.random((nf, nd)) < 0.8)
+    mode = str(rng.choice(["same", "nodes+between", "wider", "subset"]))
+    if mode == "same":
+        ft = f.copy()
+    elif mode == "nodes+between":
+        ft = np.sort(np.concatenate([f, rng.uniform(f[0] * 0.9, f[-1] * 1.1, int(rng.integers(1, 6)))]))
+    elif mode == "wider":
+        ft = np.linspace(f[0] * 0.5, f[-1] * 1.5, int(rng.integers(2, 12)))
+    else:
+        ft = f[:: int(rng.integers(1, 3))]
+    key = "nf=%s|nd=%s|%s|%s" % ("1" if nf == 1 else ("2" if nf == 2 else "n"), "-" if oned else ("1" if nd == 1 else "n"), mode, "1d" if oned else "2d")
+    E0, f0, th0, ft0 = E.copy(), f.copy(), th.copy(), ft.copy()
+    try:
+        out = utils.interp_spec(E, f, None if oned else th, ft, None if oned else th.copy())
+    except Exception as e:
+        rec.bad("interp_spec", key, {"raised": repr(e)[:300], "freq": f, "target": ft}, "array-helper-raises")
+        return
+    out = np.asarray(out, dtype="float64")
+    want = np.interp(ft, f, E, left=0.0, right=0.0) if oned else np.array([np.interp(ft, f, E[:, k], left=0.0, right=0.0) for k in range(nd)]).T
+    if out.shape != want.shape:
+        rec.bad("interp_spec", key, {"shape": out.shape, "expected_shape": want.shape}, "array-helper-shape")
+        return
+    ok, worst = close(out, want, 1e-12, atol=1e-15)
+    if ok and np.array_equal(E, E0) and np.array_equal(f, f0) and np.array_equal(ft, ft0):
+        rec.ok("interp_spec", key)
+    elif not ok:
+        rec.bad("interp_spec", key, {"freq": f, "target": ft, "spectrum": E, "returned": out, "expected": want, "worst_over_tol": worst,
+                                     "nan_returned": bool(np.isnan(out).any())}, "array-helper-not-the-linear-interpolant")
+    else:
+        rec.bad("interp_spec", key, {"freq": f}, "array-helper-changed-its-arguments")
 
 
 def source(rng, xr, exact=False):
